@@ -5,6 +5,7 @@ package route
 import (
 	"bufio"
 	"bytes"
+	"context"
 	"encoding/base64"
 	"fmt"
 	"io"
@@ -15,6 +16,8 @@ import (
 	"sort"
 	"strings"
 	"sync"
+	"sync/atomic"
+	"syscall"
 	"testing"
 	"time"
 
@@ -101,7 +104,10 @@ func (u *c37Upstream) taken() []c37Seen {
 }
 
 func (u *c37Upstream) serve(w http.ResponseWriter, r *http.Request) {
-	body, _ := io.ReadAll(r.Body)
+	body, err := io.ReadAll(r.Body)
+	if err != nil {
+		return // only requests that were READ completely count as seen
+	}
 	u.mu.Lock()
 	u.seen = append(u.seen, c37Seen{Method: r.Method, RequestURI: r.RequestURI, Host: r.Host, Header: r.Header.Clone(),
 		BodyB64: base64.StdEncoding.EncodeToString(body), body: body})
@@ -449,6 +455,115 @@ func c37SplitHops(vals []string) []string {
 	return out
 }
 
+// c37Lane is where an exchange runs: which fake Honeycomb, which front servers, and how
+// the signature is qualified.
+type c37Lane struct {
+	up       *c37Upstream
+	fronts   map[string]*httptest.Server
+	listener string // "" = PRNG's choice
+	phase    string // "" for the plain pass
+	withBody bool   // POST/PUT/PATCH with a non-empty body
+}
+
+func (l *c37Lane) sig(s string) string {
+	if l.phase == "" {
+		return s
+	}
+	return "C37/" + l.phase + "/" + strings.TrimPrefix(s, "C37/")
+}
+
+// c37StaleDialer is a DialContext for the proxy's transport whose connections can be
+// made stale: the next Write of a stale connection fails with nothing written.
+type c37StaleDialer struct {
+	mu    sync.Mutex
+	conns map[*c37Conn]bool
+	hits  atomic.Int64
+}
+
+type c37Conn struct {
+	net.Conn
+	d        *c37StaleDialer
+	stale    atomic.Bool
+	lastUsed atomic.Int64 // hits counter of writes+reads, to see the connection go quiet
+}
+
+func (d *c37StaleDialer) dial(ctx context.Context, network, addr string) (net.Conn, error) {
+	var nd net.Dialer
+	c, err := nd.DialContext(ctx, network, addr)
+	if err != nil {
+		return nil, err
+	}
+	w := &c37Conn{Conn: c, d: d}
+	d.mu.Lock()
+	if d.conns == nil {
+		d.conns = map[*c37Conn]bool{}
+	}
+	d.conns[w] = true
+	d.mu.Unlock()
+	return w, nil
+}
+
+func (c *c37Conn) Write(p []byte) (int, error) {
+	if c.stale.Load() {
+		c.d.hits.Add(1)
+		return 0, syscall.EPIPE
+	}
+	c.lastUsed.Add(1)
+	return c.Conn.Write(p)
+}
+
+func (c *c37Conn) Read(p []byte) (int, error) {
+	n, err := c.Conn.Read(p)
+	c.lastUsed.Add(1)
+	return n, err
+}
+
+func (c *c37Conn) Close() error {
+	c.d.mu.Lock()
+	delete(c.d.conns, c)
+	c.d.mu.Unlock()
+	return c.Conn.Close()
+}
+
+func (d *c37StaleDialer) open() int {
+	d.mu.Lock()
+	defer d.mu.Unlock()
+	return len(d.conns)
+}
+
+// quiet: no connection moved a byte between two looks.
+func (d *c37StaleDialer) quiet() bool {
+	snap := func() int64 {
+		d.mu.Lock()
+		defer d.mu.Unlock()
+		var t int64
+		for c := range d.conns {
+			t += c.lastUsed.Load()
+		}
+		return t
+	}
+	a := snap()
+	time.Sleep(200 * time.Microsecond)
+	return snap() == a
+}
+
+func (d *c37StaleDialer) heal() {
+	d.mu.Lock()
+	defer d.mu.Unlock()
+	for c := range d.conns {
+		c.stale.Store(false)
+	}
+}
+
+func (d *c37StaleDialer) markStale() int {
+	d.mu.Lock()
+	defer d.mu.Unlock()
+	for c := range d.conns {
+		c.stale.Store(true)
+	}
+	return len(d.conns)
+}
+
 func TestVerif_C37(t *testing.T) {
 	run := verifkit.Start(t, "C37", "route")
 	defer run.Finish()
@@ -473,10 +588,17 @@ func TestVerif_C37(t *testing.T) {
 
 	statuses := []int{200, 200, 200, 201, 202, 204, 206, 299, 301, 302, 303, 307, 308, 304, 400, 401, 403, 404, 409, 418, 422, 429, 451, 500, 502, 503, 504, 599}
 
-	run.Cases("proxy", run.N(1500, 20000), func(i int, rng *verifkit.Rand) {
+	exchange := func(i int, rng *verifkit.Rand, ln *c37Lane) {
+		viol := func(sig, what string, w any) { run.Violation(ln.sig(sig), what, w) }
 		// ---- request ----
 		req := &c37Req{Listener: verifkit.Pick(rng, "incoming", "incoming", "peer")}
 		req.Method = verifkit.Pick(rng, "GET", "GET", "POST", "POST", "PUT", "PATCH", "DELETE", "HEAD", "OPTIONS", "PURGE", "M-SEARCH", "REPORT", "get", "Post")
+		if ln.listener != "" {
+			req.Listener = ln.listener
+		}
+		if ln.withBody {
+			req.Method = verifkit.Pick(rng, "POST", "POST", "PUT", "PATCH")
+		}
 		var wantTarget string
 		req.Target, req.PathClass, wantTarget = c37Target(rng, req.Method)
 		nh := rng.Range(0, 8)
@@ -523,7 +645,20 @@ func TestVerif_C37(t *testing.T) {
 		bodyClass := "none"
 		if req.Method != "GET" && req.Method != "HEAD" && req.Method != "get" || rng.Chance(0.1) {
 			req.Body = c37Body(rng, run.Thorough())
+			// stale-connection lane: non-empty, and small enough that request line, headers
+			// and body fit into the transport's 4 kB write buffer - only then does the
+			// failing write happen outside the body copy and net/http classify it as
+			// "nothing written" (see notes/C37.md)
+			for ln.withBody && (len(req.Body) == 0 || len(req.Body) > 2000) {
+				req.Body = c37Body(rng, false)
+				if len(req.Body) > 2000 {
+					req.Body = req.Body[:rng.Range(301, 2000)]
+				}
+			}
 			req.Chunked = len(req.Body) > 0 && rng.Chance(0.25)
+			if ln.withBody {
+				req.Chunked = rng.Chance(0.4)
+			}
 			switch {
 			case len(req.Body) == 0:
 				bodyClass = "empty"
@@ -559,7 +694,7 @@ func TestVerif_C37(t *testing.T) {
 		}
 		redirect := false
 		if sc.Status >= 301 && sc.Status <= 308 && sc.Status != 304 && rng.Chance(0.8) {
-			loc := verifkit.Pick(rng, up.srv.URL+"/c37-redirect-target?from="+rng.Hex(4), "/c37-redirect-target", "c37-relative-target")
+			loc := verifkit.Pick(rng, ln.up.srv.URL+"/c37-redirect-target?from="+rng.Hex(4), "/c37-redirect-target", "c37-relative-target")
 			sc.Headers = append(sc.Headers, c37H{Name: "Location", Value: loc})
 			redirect = true
 		}
@@ -595,18 +730,18 @@ func TestVerif_C37(t *testing.T) {
 		if len(sc.Body) > 4096 {
 			sc.BodyB64 = fmt.Sprintf("(%d bytes) ", len(sc.Body)) + sc.BodyB64[:256] + "…"
 		}
-		up.arm(sc)
+		ln.up.arm(sc)
 
 		// ---- execute ----
-		frontURL, _ := url.Parse(fronts[req.Listener].URL)
+		frontURL, _ := url.Parse(ln.fronts[req.Listener].URL)
 		got, err := c37Do(frontURL.Host, req.raw(), req.Method)
-		seen := up.taken()
+		seen := ln.up.taken()
 		run.Count("requests", 1)
 		wit := func() map[string]any {
-			return map[string]any{"request": req, "upstream_script": sc, "upstream_saw": seen, "client_got": got, "honeycomb_api": up.srv.URL, "transport_error": fmt.Sprint(err)}
+			return map[string]any{"request": req, "upstream_script": sc, "upstream_saw": seen, "client_got": got, "honeycomb_api": ln.up.srv.URL, "transport_error": fmt.Sprint(err)}
 		}
 		if err != nil {
-			run.Violation("C37/response/no-valid-http-response/"+req.PathClass, "the client got no parsable HTTP response: "+err.Error(), wit())
+			viol("C37/response/no-valid-http-response/"+req.PathClass, "the client got no parsable HTTP response: "+err.Error(), wit())
 			return
 		}
 		run.Count(fmt.Sprintf("client_status_%dxx", got.Status/100), 1)
@@ -617,7 +752,7 @@ func TestVerif_C37(t *testing.T) {
 				run.Count("noncanonical_path_answered_by_mux_redirect", 1)
 				return
 			}
-			run.Violation("C37/request/not-relayed/"+req.PathClass, fmt.Sprintf("%s %s was answered %d without reaching the Honeycomb API", req.Method, req.Target, got.Status), wit())
+			viol("C37/request/not-relayed/"+req.PathClass, fmt.Sprintf("%s %s was answered %d without reaching the Honeycomb API", req.Method, req.Target, got.Status), wit())
 			return
 		}
 		multiReq := false
@@ -632,29 +767,29 @@ func TestVerif_C37(t *testing.T) {
 				multiResp = true
 			}
 		}
-		run.Nontrivial(fmt.Sprintf("%s/%s/q=%v/multi=%v/xff=%d/%s/%dxx/multi=%v/pieces=%v", strings.ToUpper(req.Method), req.PathClass, strings.Contains(req.Target, "?"), multiReq, xffLines, bodyClass, sc.Status/100, multiResp, sc.Pieces > 1))
+		run.Nontrivial(ln.phase + fmt.Sprintf("%s/%s/q=%v/multi=%v/xff=%d/%s/%dxx/multi=%v/pieces=%v", strings.ToUpper(req.Method), req.PathClass, strings.Contains(req.Target, "?"), multiReq, xffLines, bodyClass, sc.Status/100, multiResp, sc.Pieces > 1))
 		if len(seen) > 1 {
 			if redirect {
-				run.Violation("C37/response/upstream-redirect-followed-instead-of-relayed", fmt.Sprintf("Honeycomb answered %d with Location %q; Refinery followed it (%d upstream requests) and the client got %d", sc.Status, c37Lists(sc.Headers).Get("Location"), len(seen), got.Status), wit())
+				viol("C37/response/upstream-redirect-followed-instead-of-relayed", fmt.Sprintf("Honeycomb answered %d with Location %q; Refinery followed it (%d upstream requests) and the client got %d", sc.Status, c37Lists(sc.Headers).Get("Location"), len(seen), got.Status), wit())
 			} else {
-				run.Violation("C37/request/relayed-more-than-once", fmt.Sprintf("%d upstream requests for one client request", len(seen)), wit())
+				viol("C37/request/relayed-more-than-once", fmt.Sprintf("%d upstream requests for one client request", len(seen)), wit())
 			}
 			return
 		}
 		s := seen[0]
 		// ---- P2 ----
 		if s.Method != req.Method {
-			run.Violation("C37/request/method-changed", fmt.Sprintf("client sent %q, Honeycomb saw %q", req.Method, s.Method), wit())
+			viol("C37/request/method-changed", fmt.Sprintf("client sent %q, Honeycomb saw %q", req.Method, s.Method), wit())
 		}
 		if c37NormTarget(s.RequestURI) != c37NormTarget(wantTarget) {
 			kind := "path-changed"
 			if p1, _, _ := strings.Cut(c37NormTarget(s.RequestURI), "?"); p1 == strings.SplitN(c37NormTarget(wantTarget), "?", 2)[0] {
 				kind = "query-changed"
 			}
-			run.Violation("C37/request/"+kind+"/"+req.PathClass, fmt.Sprintf("client asked for %q, Honeycomb saw %q", req.Target, s.RequestURI), wit())
+			viol("C37/request/"+kind+"/"+req.PathClass, fmt.Sprintf("client asked for %q, Honeycomb saw %q", req.Target, s.RequestURI), wit())
 		}
 		if !bytes.Equal(s.body, req.Body) {
-			run.Violation("C37/request/body-changed", fmt.Sprintf("client sent %d body bytes, Honeycomb saw %d (or different ones)", len(req.Body), len(s.body)), wit())
+			viol("C37/request/body-changed", fmt.Sprintf("client sent %d body bytes, Honeycomb saw %d (or different ones)", len(req.Body), len(s.body)), wit())
 		}
 		// ---- P3 ----
 		wantH := c37Lists(req.Headers)
@@ -666,11 +801,11 @@ func TestVerif_C37(t *testing.T) {
 			switch {
 			case c37EqualLists(want, gotVals):
 			case len(gotVals) == 0:
-				run.Violation("C37/request/header-dropped", fmt.Sprintf("request header %s %q did not reach Honeycomb", name, want), wit())
+				viol("C37/request/header-dropped", fmt.Sprintf("request header %s %q did not reach Honeycomb", name, want), wit())
 			case c37IsJoin(want, gotVals):
-				run.Violation("C37/request/multi-valued-header-joined", fmt.Sprintf("request header %s sent as %d values %q reached Honeycomb as the single value %q", name, len(want), want, gotVals[0]), wit())
+				viol("C37/request/multi-valued-header-joined", fmt.Sprintf("request header %s sent as %d values %q reached Honeycomb as the single value %q", name, len(want), want, gotVals[0]), wit())
 			default:
-				run.Violation("C37/request/header-value-changed", fmt.Sprintf("request header %s sent as %q reached Honeycomb as %q", name, want, gotVals), wit())
+				viol("C37/request/header-value-changed", fmt.Sprintf("request header %s sent as %q reached Honeycomb as %q", name, want, gotVals), wit())
 			}
 		}
 		for name, vals := range s.Header {
@@ -680,33 +815,33 @@ func TestVerif_C37(t *testing.T) {
 			if name == "User-Agent" && !sentUA || name == "Accept-Encoding" && !sentAE {
 				continue // transport defaults
 			}
-			run.Violation("C37/request/header-added", fmt.Sprintf("Honeycomb saw request header %s %q that the client did not send", name, vals), wit())
+			viol("C37/request/header-added", fmt.Sprintf("Honeycomb saw request header %s %q that the client did not send", name, vals), wit())
 		}
 		// ---- P4 ----
 		gotHops := c37SplitHops(s.Header["X-Forwarded-For"])
 		clientIP, _, _ := net.SplitHostPort(got.ClientAddr)
 		switch {
 		case len(gotHops) == 0:
-			run.Violation("C37/request/x-forwarded-for/missing", "no X-Forwarded-For at Honeycomb", wit())
+			viol("C37/request/x-forwarded-for/missing", "no X-Forwarded-For at Honeycomb", wit())
 		case gotHops[len(gotHops)-1] != got.ClientAddr && gotHops[len(gotHops)-1] != clientIP:
-			run.Violation("C37/request/x-forwarded-for/client-address-not-last", fmt.Sprintf("X-Forwarded-For %q does not end with the client address %s", s.Header["X-Forwarded-For"], got.ClientAddr), wit())
+			viol("C37/request/x-forwarded-for/client-address-not-last", fmt.Sprintf("X-Forwarded-For %q does not end with the client address %s", s.Header["X-Forwarded-For"], got.ClientAddr), wit())
 		case !c37EqualLists(gotHops[:len(gotHops)-1], hops):
 			kind := "earlier-hops-changed"
 			if xffLines > 1 {
 				kind = "earlier-hops-changed/several-header-lines"
 			}
-			run.Violation("C37/request/x-forwarded-for/"+kind, fmt.Sprintf("client sent hops %q, Honeycomb saw %q", hops, s.Header["X-Forwarded-For"]), wit())
+			viol("C37/request/x-forwarded-for/"+kind, fmt.Sprintf("client sent hops %q, Honeycomb saw %q", hops, s.Header["X-Forwarded-For"]), wit())
 		}
 		// ---- P5 ----
 		if got.Status != sc.Status {
-			run.Violation("C37/response/status-changed", fmt.Sprintf("Honeycomb answered %d, the client got %d", sc.Status, got.Status), wit())
+			viol("C37/response/status-changed", fmt.Sprintf("Honeycomb answered %d, the client got %d", sc.Status, got.Status), wit())
 		}
 		wantBody := sc.Body
 		if req.Method == "HEAD" {
 			wantBody = nil
 		}
 		if !bytes.Equal(got.body, wantBody) {
-			run.Violation("C37/response/body-changed", fmt.Sprintf("Honeycomb answered %d body bytes, the client got %d (or different ones)", len(wantBody), len(got.body)), wit())
+			viol("C37/response/body-changed", fmt.Sprintf("Honeycomb answered %d body bytes, the client got %d (or different ones)", len(wantBody), len(got.body)), wit())
 		}
 		// ---- P6 ----
 		wantR := c37Lists(sc.Headers)
@@ -718,11 +853,11 @@ func TestVerif_C37(t *testing.T) {
 			switch {
 			case c37EqualLists(want, gotVals):
 			case len(gotVals) == 0:
-				run.Violation("C37/response/header-dropped", fmt.Sprintf("response header %s %q did not reach the client", name, want), wit())
+				viol("C37/response/header-dropped", fmt.Sprintf("response header %s %q did not reach the client", name, want), wit())
 			case c37IsJoin(want, gotVals):
-				run.Violation("C37/response/multi-valued-header-joined", fmt.Sprintf("response header %s sent by Honeycomb as %d values %q reached the client as the single value %q", name, len(want), want, gotVals[0]), wit())
+				viol("C37/response/multi-valued-header-joined", fmt.Sprintf("response header %s sent by Honeycomb as %d values %q reached the client as the single value %q", name, len(want), want, gotVals[0]), wit())
 			default:
-				run.Violation("C37/response/header-value-changed", fmt.Sprintf("response header %s sent by Honeycomb as %q reached the client as %q", name, want, gotVals), wit())
+				viol("C37/response/header-value-changed", fmt.Sprintf("response header %s sent by Honeycomb as %q reached the client as %q", name, want, gotVals), wit())
 			}
 		}
 		var extra []string
@@ -741,10 +876,63 @@ func TestVerif_C37(t *testing.T) {
 		}
 		sort.Strings(extra)
 		if len(extra) > 0 {
-			run.Violation("C37/response/header-added", fmt.Sprintf("the client got response header(s) %q that Honeycomb did not send", extra), wit())
+			viol("C37/response/header-added", fmt.Sprintf("the client got response header(s) %q that Honeycomb did not send", extra), wit())
 		}
 		if i < 2 {
 			run.Sample(map[string]any{"request": req, "upstream_script": sc, "upstream_saw": s, "client_status": got.Status})
+		}
+	}
+	mainLane := &c37Lane{up: up, fronts: fronts}
+	run.Cases("proxy", run.N(1500, 20000), func(i int, rng *verifkit.Rand) { exchange(i, rng, mainLane) })
+
+	// ---- stale upstream connection: the pooled keep-alive connection to Honeycomb dies
+	// between two proxied requests and the next request on it has a body ----
+	// A second bench whose proxy transports dial through c37StaleDialer. A sequence = 1-2
+	// ordinary exchanges over one router (they leave an idle connection in the pool), then
+	// every open upstream connection is made stale (its next Write fails with 0 bytes
+	// written, EPIPE - what a connection torn down by the peer looks like when nothing of
+	// the request got out), then a POST/PUT/PATCH with a non-empty body, fixed length or
+	// chunked. net/http guarantees the replay on a fresh connection for exactly this
+	// failure (nothing written on a reused connection) when the request can be rewound, so
+	// the oracle is unchanged: one request read completely by Honeycomb, same
+	// method/target/body/headers, Honeycomb's status/headers/body at the client.
+	sup := c37NewUpstream()
+	defer sup.srv.Close()
+	sb := e3New(t, E3Options{Configure: func(c *config.MockConfig) { c.GetHoneycombAPIVal = sup.srv.URL }})
+	defer sb.Close()
+	dialer := &c37StaleDialer{}
+	for _, l := range []E3Listener{E3Incoming, E3Peer} {
+		sb.routers[l].HTTPTransport.DialContext = dialer.dial
+	}
+	sfronts := map[string]*httptest.Server{
+		"incoming": httptest.NewServer(e3AdapterHandler(sb.routers[E3Incoming])),
+		"peer":     httptest.NewServer(e3AdapterHandler(sb.routers[E3Peer])),
+	}
+	defer func() {
+		for _, f := range sfronts {
+			f.Close()
+		}
+	}()
+	run.Cases("stale-upstream-connection", run.N(200, 2000), func(i int, rng *verifkit.Rand) {
+		listener := verifkit.Pick(rng, "incoming", "incoming", "peer")
+		dialer.heal() // connections the previous sequence made stale but never used are healthy again
+		warm := &c37Lane{up: sup, fronts: sfronts, listener: listener, phase: "before-stale-upstream-connection"}
+		for k, n := 0, rng.Range(1, 2); k < n; k++ {
+			exchange(i+2, rng, warm)
+		}
+		// let the transport park the connection (it does so right after handing the last
+		// body byte to the proxy); a connection that is not parked yet is simply not
+		// reused and the case is counted as a miss, never as a violation
+		for k := 0; k < 50 && dialer.open() > 0 && !dialer.quiet(); k++ {
+			time.Sleep(time.Millisecond)
+		}
+		marked := dialer.markStale()
+		before := dialer.hits.Load()
+		exchange(i+2, rng, &c37Lane{up: sup, fronts: sfronts, listener: listener, phase: "on-stale-upstream-connection", withBody: true})
+		run.Count("stale_sequences", 1)
+		run.Count("upstream_connections_made_stale", int64(marked))
+		if dialer.hits.Load() > before {
+			run.Count("body_requests_that_hit_a_stale_connection", 1)
 		}
 	})
 }
